@@ -51,7 +51,7 @@ def main():
     ]
     run.build_and_audit(["TdVerif.Props.C13"])
     if run.tier == "thorough":
-        run.leanchecker(["TdVerif.Props.C13", "TdVerif.Lemmas.C13", "TdVerif.Model.C13Module"])
+        run.leanchecker(["TdVerif.Props.C13", "TdVerif.Lemmas.C13", "TdVerif.Lemmas.C13Params", "TdVerif.Lemmas.C13Inplace", "TdVerif.Model.C13Module", "TdVerif.Model.C13Params", "TdVerif.Model.C13Inplace"])
     drv = run.driver()
 
     import torch
